@@ -28,8 +28,21 @@ NGENS = 56
 _syms = sp.symbols(f'v0:{NGENS}')
 K = QQ.frac_field(*_syms)
 GENS = K.gens
-ZERO = K(0)
-ONE = K(1)
+_POOLS = {NGENS: (K, GENS)}
+
+
+def set_pool(n: int):
+    """Select the size of the generator pool (a larger field makes every polynomial operation slower, so cells ask
+    for it only when they need many output-rounding variables).  Terms never outlive a path, so switching between
+    cells is safe."""
+    global NGENS, K, GENS
+    if n == NGENS:
+        return
+    if n not in _POOLS:
+        k = QQ.frac_field(*sp.symbols(f'v0:{n}'))
+        _POOLS[n] = (k, k.gens)
+    NGENS = n
+    K, GENS = _POOLS[n]
 
 
 class Unsupported(BaseException):
@@ -761,6 +774,59 @@ class FloatShim(metaclass=_FloatMeta):
         if isinstance(x, SymFloat):
             return x
         return _real_float(x)
+
+
+# sympy's heuristic polynomial GCD recurses once per generator of the *ring*, used or not, so in a 56- or 112-generator
+# ring every cancellation pays for all of them.  Compute the GCD in the sub-ring of the generators that actually occur.
+def _patch_sympy_gcd():
+    from sympy.polys.rings import PolyElement, PolyRing
+    if getattr(PolyElement, '_verif_patched', False):
+        return
+    orig = PolyElement._gcd_ZZ
+    subrings = {}
+
+    def _gcd_ZZ(f, g):
+        ring = f.ring
+        n = ring.ngens
+        if n <= 6:
+            return orig(f, g)
+        used = [False] * n
+        for poly in (f, g):
+            for m in poly:
+                for i, e in enumerate(m):
+                    if e:
+                        used[i] = True
+        idx = [i for i in range(n) if used[i]]
+        if not idx or len(idx) >= n - 2:
+            return orig(f, g)
+        key = (id(ring), tuple(idx))
+        sub = subrings.get(key)
+        if sub is None:
+            sub = PolyRing([ring.symbols[i] for i in idx], ring.domain, ring.order)
+            subrings[key] = sub
+
+        def down(poly):
+            out = sub.zero
+            for m, c in poly.items():
+                out[tuple(m[i] for i in idx)] = c
+            return out
+
+        def up(poly):
+            out = ring.zero
+            for m, c in poly.items():
+                mm = [0] * n
+                for k, i in enumerate(idx):
+                    mm[i] = m[k]
+                out[tuple(mm)] = c
+            return out
+        h, cff, cfg = orig(down(f), down(g))
+        return up(h), up(cff), up(cfg)
+
+    PolyElement._gcd_ZZ = _gcd_ZZ
+    PolyElement._verif_patched = True
+
+
+_patch_sympy_gcd()
 
 
 # fractions.Fraction treats any float subclass as a float: Fraction * SymFloat would first convert the exact
